@@ -450,6 +450,10 @@ func modeC03() {
 	}
 	d1 := 1
 	n := 0
+	if os.Getenv("VERIF_LOCKPHASE") == "only" {
+		cases = nil // debugging aid: go straight to the lock-level phase
+		deadline = time.Now().Add(25 * time.Minute)
+	}
 	for i, c := range cases {
 		if !vlib.Mine(i) {
 			continue
